@@ -38,7 +38,7 @@ def run(ctx):
         for t in b.calls():
             if t.callee and t.callee.target_path(prog) in kpaths:
                 kcalls.append((b, t))
-    if not ctx.floor("R-C06-1", "kernel_calls", len(kcalls), 4):
+    if not ctx.floor("R-C06-1", "kernel_calls", len(kcalls), 2):
         return
     for (b, t) in kcalls:
         params, callees = value_descriptor(flows, root.path, b.path, t.args[0])
